@@ -103,8 +103,9 @@ fn run_thread(th: u64, seed: u64, nops: usize, faults: bool) -> (Vec<Value>, Vec
             if tok {
                 let name = ["NaN", "PInf", "NInf", "FMax", "NFMax", "Sub", "NZero"][r.below(7) as usize];
                 let x = tok_val(name);
-                e = json!({"op": "tok", "i": i.id, "x": name});
-                out = if Ind::has_scalar(&i.kind) {
+                let asbar = r.below(2) == 0;
+                e = json!({"op": if asbar && Ind::has_scalar(&i.kind) { "tokb" } else { "tok" }, "i": i.id, "x": name});
+                out = if Ind::has_scalar(&i.kind) && !asbar {
                     catch_unwind(AssertUnwindSafe(|| i.ind.next_s(x).unwrap())).map_err(|_| ())
                 } else {
                     let b = Bar::one(x);
